@@ -334,28 +334,132 @@ def _worker_init(check_name):
     _CHECK = load(check_name)
 
 
+ISOLATE = os.environ.get("VERIF_ISOLATE", "0") == "1"  # fork per run in the sweep too (slower)
+
+
+def _one_run(seed, tier, idx):
+    run = _CHECK.gen(seed, idx, tier)
+    rd = os.path.join(seams.SCRATCH_ROOT, "run-%d" % idx)
+    try:
+        res = _CHECK.execute(run, rd)
+    except Exception:
+        res = {"status": "harness_error", "message": traceback.format_exc(), "digest": None, "nontrivial": False, "signature": None, "probes": {}}
+    res["idx"] = idx
+    res["backend"] = run.get("backend")
+    return res
+
+
+def _one_run_forked(seed, tier, idx):
+    """One simulated run = one forked child of the pristine worker: whatever state the code under test keeps
+    inside the process (module globals, class attributes, caches) cannot leak from one run into the next, so
+    every failure is a function of the run's own steps and replays in a fresh process."""
+    import pickle
+
+    rfd, wfd = os.pipe()
+    pid = os.fork()
+    if pid == 0:
+        code = 0
+        try:
+            os.close(rfd)
+            res = _one_run(seed, tier, idx)
+            res.pop("detail_obj", None)
+            data = pickle.dumps(res, protocol=pickle.HIGHEST_PROTOCOL)
+            with os.fdopen(wfd, "wb") as f:
+                f.write(data)
+        except BaseException:
+            code = 3
+        finally:
+            os._exit(code)
+    os.close(wfd)
+    chunks = []
+    with os.fdopen(rfd, "rb") as f:
+        while True:
+            b = f.read(1 << 16)
+            if not b:
+                break
+            chunks.append(b)
+    _, status = os.waitpid(pid, 0)
+    try:
+        return pickle.loads(b"".join(chunks))
+    except Exception:
+        return {"status": "harness_error", "message": "run %d: child died (wait status %r) without a result" % (idx, status), "digest": None, "nontrivial": False, "signature": None, "probes": {}, "idx": idx, "backend": None}
+
+
+def fork_start(fn, *args):
+    """Run fn(*args) in a forked child of THIS process; returns (pid, read fd)."""
+    import pickle
+
+    rfd, wfd = os.pipe()
+    pid = os.fork()
+    if pid == 0:
+        code = 0
+        try:
+            os.close(rfd)
+            seams.after_fork()
+            data = pickle.dumps(fn(*args), protocol=pickle.HIGHEST_PROTOCOL)
+            with os.fdopen(wfd, "wb") as f:
+                f.write(data)
+        except BaseException:
+            try:
+                traceback.print_exc()
+            except Exception:
+                pass
+            code = 3
+        finally:
+            try:
+                shutil.rmtree(seams.SCRATCH_ROOT, ignore_errors=True)
+            except Exception:
+                pass
+            os._exit(code)
+    os.close(wfd)
+    return pid, rfd
+
+
+def fork_collect(pid, rfd):
+    import pickle
+
+    chunks = []
+    with os.fdopen(rfd, "rb") as f:
+        while True:
+            b = f.read(1 << 16)
+            if not b:
+                break
+            chunks.append(b)
+    os.waitpid(pid, 0)
+    try:
+        return pickle.loads(b"".join(chunks))
+    except Exception:
+        return None
+
+
+def _revalidate(seed, tier, idx):
+    global _CHECK
+    return _one_run(seed, tier, idx)
+
+
+def _minimise_pristine(seed, tier, idx):
+    """Minimise in a child forked from the parent, which never executed a run itself."""
+    faulthandler.dump_traceback_later(300, exit=True)
+    run = _CHECK.gen(seed, idx, tier)
+    base = os.path.join(seams.SCRATCH_ROOT, "minrun-%d" % idx)
+    res = _CHECK.execute(run, os.path.join(base, "orig"))
+    if res["status"] != "violation":
+        return {"idx": idx, "error": "did not reproduce in a pristine process", "res": res}
+    mrun, mres, tries = minimise(_CHECK, run, res, base)
+    shutil.rmtree(base, ignore_errors=True)
+    return {"idx": idx, "run": mrun, "res": mres, "tries": tries, "orig_steps": len(run["steps"])}
+
+
 def _run_chunk(args):
     check_name, seed, tier, idxs, timeout = args
     faulthandler.dump_traceback_later(timeout, exit=True)
     try:
         out = []
         for idx in idxs:
-            run = _CHECK.gen(seed, idx, tier)
-            rd = os.path.join(seams.SCRATCH_ROOT, "run-%d" % idx)
-            try:
-                res = _CHECK.execute(run, rd)
-            except Exception:
-                res = {
-                    "status": "harness_error",
-                    "message": traceback.format_exc(),
-                    "digest": None,
-                    "nontrivial": False,
-                    "signature": None,
-                    "probes": {},
-                }
-            res["idx"] = idx
-            res["backend"] = run.get("backend")
-            out.append(res)
+            if ISOLATE:
+                out.append(_one_run_forked(seed, tier, idx))
+            else:
+                out.append(_one_run(seed, tier, idx))
         return out
     finally:
         faulthandler.cancel_dump_traceback_later()
@@ -531,26 +635,43 @@ def run_check(check_name, tier, seed=None, nruns=None):
                     for f in pending:
                         f.cancel()
                     pending = {f for f in pending if not f.cancelled()}
-            # minimise violations (grouped) while the pool is alive
-            viol = [r for r in results.values() if r["status"] == "violation"]
-            groups = collections.OrderedDict()
-            for r in sorted(viol, key=lambda r: r["idx"]):
-                kind = (r.get("detail") or {}).get("kind") if isinstance(r.get("detail"), dict) else None
-                groups.setdefault((r["backend"], r["tag"], r.get("step_op"), kind), []).append(r)
-            todo = []
-            for g, rs in groups.items():
-                todo.extend(rs[:1])
-            todo = todo[:12]
-            mins = []
-            mf = [ex.submit(_minimise_job, (check_name, seed, tier, r["idx"])) for r in todo]
-            for f in mf:
-                try:
-                    mins.append(f.result(timeout=600))
-                except Exception as e:
-                    harness_errors.append("minimiser failed: %r" % (e,))
     except cf.process.BrokenProcessPool as e:
         print("HARNESS-ERROR worker died or timed out: %r" % (e,))
         return 2
+
+    # ---- violations: re-validate in pristine processes, group, minimise (each in a child forked from this
+    # process, which never executed a run: state the code under test keeps inside a process cannot carry over)
+    global _CHECK
+    _CHECK = check
+    mins = []
+    leak_dependent = []
+    viol = [r for r in results.values() if r["status"] == "violation"]
+    groups = collections.OrderedDict()
+    for r in sorted(viol, key=lambda r: r["idx"]):
+        kind = (r.get("detail") or {}).get("kind") if isinstance(r.get("detail"), dict) else None
+        groups.setdefault((r["backend"], r["tag"], r.get("step_op"), kind), []).append(r)
+    chosen = []
+    for g, rs in list(groups.items())[:16]:
+        for r in rs[:8]:
+            rr = fork_collect(*fork_start(_revalidate, seed, tier, r["idx"]))
+            if rr and rr.get("status") == "violation" and rr.get("tag") == r["tag"]:
+                chosen.append((g, r["idx"]))
+                break
+            leak_dependent.append(r["idx"])
+    jobs_ = [(g, idx, fork_start(_minimise_pristine, seed, tier, idx)) for g, idx in chosen[:12]]
+    for g, idx, (pid, rfd) in jobs_:
+        mm = fork_collect(pid, rfd)
+        if mm is None:
+            harness_errors.append("minimiser for run %d died" % idx)
+            continue
+        mm["_group"] = g
+        mins.append(mm)
+    unsolved = [g for g in list(groups)[:16] if g not in {c[0] for c in chosen}]
+    if unsolved:
+        harness_errors.append(
+            "%d group(s) of failures (%s ...) show only after other runs in the same process and not when the run is executed alone in a fresh process: the code under test keeps state inside the process that leaks between store objects (runs %s)"
+            % (len(unsolved), unsolved[0], leak_dependent[:8])
+        )
 
     for r in results.values():
         if r["status"] == "harness_error":
@@ -564,10 +685,23 @@ def run_check(check_name, tier, seed=None, nruns=None):
     exit_code = 0
     reported = []
     confirms = 0
+    done_groups = set()
+    group_errors = {}
     for m in mins:
-        if "error" in m:
-            harness_errors.append("run %d: %s" % (m["idx"], m["error"]))
+        g = m.get("_group")
+        if g in done_groups:
             continue
+        if "error" in m:
+            # The failure did not show again in the (long-lived) minimiser worker: state kept by the code under
+            # test inside the process can do that.  Fall back to the unminimised history in a fresh process.
+            run0 = check.gen(seed, m["idx"], tier)
+            res0 = results[m["idx"]]
+            path = write_replay(check, run0, res0, seed, m["idx"], False)
+            rc, outp = replay_in_fresh_process(path)
+            if rc != 1:
+                group_errors.setdefault(g, []).append("run %d: %s; the unminimised history does not fail in a fresh process either" % (m["idx"], m["error"]))
+                continue
+            m = {"idx": m["idx"], "run": run0, "res": res0, "tries": 0, "orig_steps": len(run0["steps"]), "unminimised": True, "_group": g}
         mrun, mres = m["run"], m["res"]
         if confirms >= getattr(check, "max_confirm", 99):
             print("NOTE %s run %d: further failure of oracle %s not confirmed (confirmation budget used); replay not written" % (check.prop, m["idx"], mres["tag"]), flush=True)
@@ -578,7 +712,7 @@ def run_check(check_name, tier, seed=None, nruns=None):
             print("NOTE %s run %d: failure not confirmed: %s" % (check.prop, m["idx"], note), flush=True)
             reported.append({"idx": m["idx"], "unconfirmed": note})
             continue
-        path = write_replay(check, mrun, mres, seed, m["idx"], True, {"minimiser_tries": m["tries"], "original_steps": m["orig_steps"]})
+        path = write_replay(check, mrun, mres, seed, m["idx"], not m.get("unminimised"), {"minimiser_tries": m["tries"], "original_steps": m["orig_steps"]})
         rc, outp = replay_in_fresh_process(path)
         if rc != 1:
             # fall back to the unminimised trace
@@ -587,8 +721,9 @@ def run_check(check_name, tier, seed=None, nruns=None):
             path = write_replay(check, run, res0, seed, m["idx"], False)
             rc, outp = replay_in_fresh_process(path)
             if rc != 1:
-                harness_errors.append("run %d: violation does not reproduce in a fresh process:\n%s" % (m["idx"], outp[-2000:]))
+                group_errors.setdefault(g, []).append("run %d: violation does not reproduce in a fresh process:\n%s" % (m["idx"], outp[-2000:]))
                 continue
+        done_groups.add(g)
         k = match_known(known, check.prop, mrun.get("backend"), mres["tag"], mres.get("step_op"), mres.get("message"))
         desc = "%s backend=%s oracle=%s op=%s: %s" % (check.prop, mrun.get("backend"), mres["tag"], mres.get("step_op"), short(mres["message"], 400))
         if k:
@@ -600,6 +735,10 @@ def run_check(check_name, tier, seed=None, nruns=None):
             print("VIOLATION property=%s replay=%s" % (check.prop, path), flush=True)
             reported.append({"idx": m["idx"], "violation": desc, "replay": path})
             exit_code = 1
+
+    for g, errs in group_errors.items():
+        if g not in done_groups:
+            harness_errors.extend(errs[:2])
 
     # ---- per-check batch extras (e.g. stub-vs-real cross validation)
     batch_extra = {}
